@@ -70,7 +70,7 @@ CLAIMED["C19"] = ("§3 C19",
 
 CLAIMED["C17"] = ("§3 C17",
     "capture discipline + lockset for every concurrently executed closure of the module loaders, map-iteration order-leak classification, CFG must-pass (Validate before Decode, re-parse before return, updateRoots before a stable exit), schema/struct field-table agreement (declaration scanner over schema.cue vs json tags), field-by-field copy completeness, decision tables of the file filter and of the root fixpoint, shared-implementation who-calls",
-    "Decides that closures run concurrently by modload/modpkgload/modrequirements write captured state only under a common mutex (or atomics, per-iteration variables, per-index slice elements), that no map iteration in these packages and in modfile feeds an unsorted order-sensitive sink, that modfile.parse decodes only values validated against the selected #File schema (selected as a maximum), that Format returns only bytes its own parse accepted, that every regular field the module-file schema (schema.cue: #File, #Dep, #Source, language) declares has a json field in the Go struct it is decoded into and vice versa, that every place rebuilding a modfile.File field by field sets every exported field (the defect found — description accepted and dropped — was repaired in /repo, fix: 5e9e098), that the root fixpoint of updateRoots detects any change, that the file filters of loader and root scan agree, and that CheckTidy and Tidy share tidy/tidyOnce/equalRequirements. The rule that every stable exit of the load loop has reconciled the roots with the graph (updateRoots since LoadPackages) reports one known finding: the port dropped that step, and tidy can write a root below what another written root requires (witness in findings/C17). It does not decide that the fixpoint lists exactly the needed modules, nor the handling of default major versions.",
+    "Decides that closures run concurrently by modload/modpkgload/modrequirements write captured state only under a common mutex (or atomics, per-iteration variables, per-index slice elements), that no map iteration in these packages and in modfile feeds an unsorted order-sensitive sink, that modfile.parse decodes only values validated against the selected #File schema (selected as a maximum), that Format returns only bytes its own parse accepted, that every regular field the module-file schema (schema.cue: #File, #Dep, #Source, language) declares has a json field in the Go struct it is decoded into and vice versa, that every place rebuilding a modfile.File field by field sets every exported field (the defect found — description accepted and dropped — was repaired in /repo, fix: 5e9e098), that AllModuleFiles decides whether a directory is a nested module by a scan that completes before the first file is yielded, that no resolution step branches on whether the module graph happens to be loaded (GraphIsLoaded is called only by the two reviewed work-saving sites), that the root fixpoint of updateRoots detects any change, that the file filters of loader and root scan agree, and that CheckTidy and Tidy share tidy/tidyOnce/equalRequirements. The rule that every stable exit of the load loop has reconciled the roots with the graph (updateRoots since LoadPackages) reports one known finding: the port dropped that step, and tidy can write a root below what another written root requires (witness in findings/C17). It does not decide that the fixpoint lists exactly the needed modules, nor the handling of default major versions.",
     "MVS and registry behaviour trusted")
 
 CLAIMED["C20"] = ("§3 C20",
